@@ -69,8 +69,9 @@ def add_login(registry: kopf.OperatorRegistry, world: World, env: Env | None = N
 class Outcome:
     """One step of a handler's outcome script."""
     def __init__(self, kind: str, delay: float | None = None, result: Any = None, sleep: float = 0.0,
-                 patch: dict | None = None, edit: dict | None = None, addfin: str | None = None) -> None:
+                 patch: dict | None = None, edit: dict | None = None, addfin: str | None = None, stamp: bool = False) -> None:
         self.kind, self.delay, self.result, self.sleep, self.patch = kind, delay, result, sleep, patch
+        self.stamp = stamp   # the invocation leaves its number in status.p_<id> (a field) and bumps status.c_<id> (a non-idempotent transformation)
         self.edit = edit   # a foreign write to the same object made while the handler runs
         self.addfin = addfin   # a user transformation (patch.fns, docs/patches.rst): add this finalizer if it is not there
 
@@ -162,6 +163,10 @@ def scripted(env: Env, hid: str, script: list[Outcome], *, cursor: str | None = 
                 rv_now = (body or {}).get('metadata', {}).get('resourceVersion') if body is not None else None
                 foreign_now = ((body or {}).get('status') or {}).get('foreign') if body is not None else None
                 _deep_update(kw['patch'], json.loads(json.dumps(out.patch).replace('$rv', str(rv_now)).replace('$foreign', str(foreign_now))))
+            if out.stamp and 'patch' in kw:
+                import functools
+                _deep_update(kw['patch'], {'status': {f'p_{hid}': n}})
+                kw['patch'].fns.append(functools.partial(_bump, key=f'c_{hid}'))
             if out.addfin and 'patch' in kw:
                 import functools
                 kw['patch'].fns.append(functools.partial(_add_finalizer, name=out.addfin))
@@ -300,6 +305,11 @@ def _add_finalizer(body: Any, /, name: str) -> None:
     fins = body.setdefault('metadata', {}).setdefault('finalizers', [])
     if name not in fins:
         fins.append(name)
+
+
+def _bump(body: Any, /, key: str) -> None:
+    st = body.setdefault('status', {})
+    st[key] = int(st.get(key) or 0) + 1
 
 
 def _deep_update(dst: Any, src: dict) -> None:
